@@ -3,6 +3,7 @@ import CobyqaVerif.Model.SpecC03
 import CobyqaVerif.Model.Run
 import CobyqaVerif.Model.Settings
 import CobyqaVerif.Model.Radius
+import CobyqaVerif.Model.Constraints
 import CobyqaVerif.Gen.Settings
 /-!
 Line-protocol driver: `lake env lean --run Driver.lean < requests > answers`.
@@ -285,6 +286,45 @@ def doRemove (hdr vals : List Nat) : String :=
   | _ => "bad-op"
 end radius
 
+/-! ## constraint translation (C17) -/
+section cons
+open Cobyqa
+
+def limOfBits (b : Nat) : Lim Float :=
+  let x := fl b
+  if x.isNaN then .nan else if x.isInf then (if x > 0 then .pinf else .ninf) else .fin x
+
+def EPSBITS : Nat := 0x3cb0000000000000   -- 2 ** -52
+
+def limPairs : List Nat → Option (List (Lim Float × Lim Float))
+  | [] => some []
+  | [_] => none
+  | a :: b :: t => (limPairs t).map ((limOfBits a, limOfBits b) :: ·)
+
+/-- `splitlin | lb1 ub1 lb2 ub2 ...` -> `tol ; rows comp:sign:rhs ... ; eqs comp:b ...` -/
+def doSplitLin (vals : List Nat) : String :=
+  match limPairs vals with
+  | none => "bad-op"
+  | some lims =>
+    let tol := arraysTol (10.0 : Float) (fl EPSBITS) (lims.map (·.1)) (lims.map (·.2))
+    let (rows, eqs) := splitLinear tol lims
+    s!"{bits tol} ; " ++ " ".intercalate (rows.map fun r => s!"{r.comp}:{if r.plus then 1 else 0}:{bits r.rhs}") ++ " ; " ++
+      " ".intercalate (eqs.map fun (k, b) => s!"{k}:{bits b}")
+
+/-- `splitnl m | lb1 ub1 ... lbm ubm w1 ... wm` -> `cub... ; ceq...` -/
+def doSplitNl (hdr vals : List Nat) : String :=
+  match hdr with
+  | [m] =>
+    match limPairs (vals.take (2 * m)) with
+    | none => "bad-op"
+    | some lims =>
+      let w := (vals.drop (2 * m)).map fl
+      let tol := arraysTol (10.0 : Float) (fl EPSBITS) (lims.map (·.1)) (lims.map (·.2))
+      let (cub, ceq) := splitNonlinear tol lims w
+      " ".intercalate (cub.map fun x => toString (bits x)) ++ " ; " ++ " ".intercalate (ceq.map fun x => toString (bits x))
+  | _ => "bad-op"
+end cons
+
 def handle (line : String) : String :=
   match line.splitOn "|" with
   | [h, v] =>
@@ -301,6 +341,8 @@ def handle (line : String) : String :=
         | "filter" => doFilter hdr vals
         | "spec03" => doSpec03 hdr vals
         | "scan" => doScan hdr vals
+        | "splitlin" => doSplitLin vals
+        | "splitnl" => doSplitNl hdr vals
         | "remove" => doRemove hdr vals
         | _ => "bad-op"
       | _, _ => "bad-op"
